@@ -45,13 +45,13 @@ def famOK (ip : IP) (fam : Nat) : Bool := ip.fam == fam
 
 structure Perm where
   ip : IP
-  expiry : Time
+  expiry : Nat
 deriving DecidableEq, Repr
 
 structure Chan where
   num : Nat
   peer : Addr
-  expiry : Time
+  expiry : Nat
 deriving DecidableEq, Repr
 
 /-- a peer TCP connection of a TCP allocation (RFC 6062) -/
@@ -60,7 +60,7 @@ structure TConn where
   peer : Addr
   inbound : Bool
   bound : Option Key      -- the data connection it is piped to, once ConnectionBind succeeded
-  deadline : Time         -- bind deadline (meaningful while unbound)
+  deadline : Nat         -- bind deadline (meaningful while unbound)
   pend : Bytes            -- bytes the peer sent before the connection was bound (buffered by TCP)
 deriving DecidableEq, Repr
 
@@ -70,7 +70,7 @@ structure Alloc where
   relay : Addr
   tcp : Bool              -- REQUESTED-TRANSPORT was TCP: relay is a listener, not a datagram socket
   fam : Nat               -- 1 = IPv4, 2 = IPv6
-  expiry : Time
+  expiry : Nat
   perms : List Perm
   chans : List Chan
   conns : List TConn
@@ -107,11 +107,11 @@ structure Resv where
   lid : Nat
   token : String
   port : Nat
-  expiry : Time
+  expiry : Nat
 deriving DecidableEq, Repr
 
 structure State where
-  now : Time
+  now : Nat
   allocs : List Alloc
   resvs : List Resv
   closed : Bool
@@ -255,12 +255,12 @@ def authFail (k : Key) (m : String) (tid : Nat) : AuthRes → List Out
 inductive Upd | keep | set (a : Alloc) | del
 deriving Repr
 
-def addPerm (now : Time) (t : Nat) (ip : IP) (a : Alloc) : Alloc :=
+def addPerm (now : Nat) (t : Nat) (ip : IP) (a : Alloc) : Alloc :=
   { a with perms := ⟨ip, now + t⟩ :: a.perms.filter (fun p => !(p.ip == ip)) }
 
 /-- the ForEach loop of CreatePermission: returns the allocation with the permissions installed so far
     and the error code if a peer failed (`none` = every peer was accepted) -/
-def permLoop (c : Cfg) (now : Time) (lid : Nat) : List (Option Addr) → Alloc → Alloc × Option Nat
+def permLoop (c : Cfg) (now : Nat) (lid : Nat) : List (Option Addr) → Alloc → Alloc × Option Nat
   | [], a => (a, none)
   | none :: _, a => (a, some 400)
   | some p :: ps, a =>
@@ -273,7 +273,7 @@ def bindConflict (a : Alloc) (num : Nat) (peer : Addr) : Bool :=
   (match chanByAddr a peer with | some ch => ch.num != num | none => false) ||
   (match chanByNum a num with | some ch => !(ch.peer == peer) | none => false)
 
-def addChan (now : Time) (c : Cfg) (num : Nat) (peer : Addr) (a : Alloc) : Alloc :=
+def addChan (now : Nat) (c : Cfg) (num : Nat) (peer : Addr) (a : Alloc) : Alloc :=
   addPerm now c.permT peer.ip
     { a with chans := ⟨num, peer, now + c.chanT⟩ :: a.chans.filter (fun ch => !(ch.num == num)) }
 
@@ -294,71 +294,85 @@ structure HRes where
   resv : Option Resv := none
 deriving Repr
 
+/-- RESERVATION-TOKEN: an error code, or the port to request (0 = any) -/
+def tokRes (s : State) (lid : Nat) (tok : Attr String) (even : Attr Bool) : Except Nat Nat :=
+  match tok with
+  | .val tk =>
+    match even with
+    | .val _ => .error 400
+    | _ => match findResv s lid tk with
+           | none => .error 508
+           | some r => .ok (r.port + 1)
+  | _ => .ok 0
+
+/-- EVEN-PORT: an error code, or the port to request and the reservation token to hand out -/
+def evenRes (even : Attr Bool) (env : AllocEnv) (port0 : Nat) : Except Nat (Nat × Option String) :=
+  match even with
+  | .val _ => match env.evenPort with
+              | none => .error 508
+              | some p => .ok (p, some env.newToken)
+  | _ => .ok (port0, none)
+
+/-- REQUESTED-ADDRESS-FAMILY -/
+def famRes (c : Cfg) (k : Key) (fam : Attr Nat) : Except Nat Nat :=
+  match fam with
+  | .absent => .ok (defaultFam c k)
+  | .bad => .error 400
+  | .val f => if f == 1 || f == 2 then .ok f else .error 440
+
+/-- everything `handleAllocateRequest` checks between authentication and `CreateAllocation`:
+    an error code, or (requested transport is TCP, requested port, new token, family, lifetime) -/
+def allocChecks (c : Cfg) (s : State) (k : Key) (lt : Attr Nat) (tr : Attr Nat) (df : Bool) (tok : Attr String)
+    (even : Attr Bool) (fam : Attr Nat) (env : AllocEnv) : Except Nat (Bool × Nat × Option String × Nat × Nat) :=
+  match tr with
+  | .absent | .bad => .error 400
+  | .val t =>
+    if t != 17 && t != 6 then .error 442
+    else if df then .error 420
+    else match tokRes s k.lid tok even with
+      | .error code => .error code
+      | .ok port0 =>
+        match evenRes even env port0 with
+        | .error code => .error code
+        | .ok (reqPort, newTok) =>
+          match famRes c k fam with
+          | .error code => .error code
+          | .ok f =>
+            if tok != .absent && fam != .absent then .error 400
+            else if c.hasQuota && !env.quota then .error 486
+            else if lifetimeOf c lt == 0 then .error 508
+            else .ok (t == 6, reqPort, newTok, f, lifetimeOf c lt)
+
+def relayOf (c : Cfg) (f reqPort p : Nat) : Addr :=
+  ⟨if f == 2 then c.relay6 else c.relay4, if reqPort != 0 then reqPort else p⟩
+
+/-- the generator binds a fresh socket: a port already held by a live relay cannot be bound -/
+def relayBusy (s : State) (relay : Addr) (tcp : Bool) : Bool :=
+  s.allocs.any (fun b => b.relay == relay && b.tcp == tcp)
+
 def hAllocate (c : Cfg) (s : State) (k : Key) (tid : Nat) (cr : Cred) (lt : Attr Nat) (tr : Attr Nat)
     (df : Bool) (tok : Attr String) (even : Attr Bool) (fam : Attr Nat) (env : AllocEnv) : HRes :=
-  let M := "Allocate"
   match authenticate c cr with
   | .ok user =>
     match findAlloc s k with
     | some a =>
       if a.cacheTid == tid then
-        { outs := [okResp k M tid { lt := some a.cacheLt, relay := some a.relay, mapped := some k.src, token := a.cacheTok }] }
-      else { outs := [errResp k M 437 tid] }
+        { outs := [okResp k "Allocate" tid { lt := some a.cacheLt, relay := some a.relay, mapped := some k.src, token := a.cacheTok }] }
+      else { outs := [errResp k "Allocate" 437 tid] }
     | none =>
-      match tr with
-      | .absent | .bad => { outs := [errResp k M 400 tid] }
-      | .val t =>
-        if t != 17 && t != 6 then { outs := [errResp k M 442 tid] }
-        else if df then { outs := [errResp k M 420 tid] }
-        else
-          -- RESERVATION-TOKEN
-          let tokRes : Except Nat Nat :=      -- error code, or the requested port (0 = any)
-            match tok with
-            | .val tk =>
-              match even with
-              | .val _ => .error 400
-              | _ => match findResv s k.lid tk with
-                     | none => .error 508
-                     | some r => .ok (r.port + 1)
-            | _ => .ok 0
-          match tokRes with
-          | .error code => { outs := [errResp k M code tid] }
-          | .ok port0 =>
-            -- EVEN-PORT
-            let evenRes : Except Nat (Nat × Option String) :=
-              match even with
-              | .val _ => match env.evenPort with
-                          | none => .error 508
-                          | some p => .ok (p, some env.newToken)
-              | _ => .ok (port0, none)
-            match evenRes with
-            | .error code => { outs := [errResp k M code tid] }
-            | .ok (reqPort, newTok) =>
-              -- REQUESTED-ADDRESS-FAMILY
-              let famRes : Except Nat Nat :=
-                match fam with
-                | .absent => .ok (defaultFam c k)
-                | .bad => .error 400
-                | .val f => if f == 1 || f == 2 then .ok f else .error 440
-              match famRes with
-              | .error code => { outs := [errResp k M code tid] }
-              | .ok f =>
-                if tok != .absent && fam != .absent then { outs := [errResp k M 400 tid] }
-                else if c.hasQuota && !env.quota then { outs := [errResp k M 486 tid] }
-                else
-                  let g := lifetimeOf c lt
-                  if g == 0 then { outs := [errResp k M 508 tid] }
-                  else match env.port with
-                    | none => { outs := [errResp k M 508 tid] }
-                    | some p =>
-                      let relay : Addr := ⟨if f == 2 then c.relay6 else c.relay4, if reqPort != 0 then reqPort else p⟩
-                      -- the generator binds a fresh socket: a port already held by a live relay cannot be bound
-                      if s.allocs.any (fun b => b.relay == relay && b.tcp == (t == 6)) then { outs := [errResp k M 508 tid] } else
-                      let a : Alloc := ⟨k, user, relay, t == 6, f, s.now + g, [], [], [], tid, g / sec, newTok⟩
-                      { upd := .set a,
-                        outs := [okResp k M tid { lt := some (g / sec), relay := some relay, mapped := some k.src, token := newTok }],
-                        resv := newTok.map (fun tk => ⟨k.lid, tk, relay.port, s.now + c.resvT⟩) }
-  | r => { outs := authFail k M tid r }
+      match allocChecks c s k lt tr df tok even fam env with
+      | .error code => { outs := [errResp k "Allocate" code tid] }
+      | .ok (tcp, reqPort, newTok, f, g) =>
+        match env.port with
+        | none => { outs := [errResp k "Allocate" 508 tid] }
+        | some p =>
+          if relayBusy s (relayOf c f reqPort p) tcp then { outs := [errResp k "Allocate" 508 tid] }
+          else
+            { upd := .set ⟨k, user, relayOf c f reqPort p, tcp, f, s.now + g, [], [], [], tid, g / sec, newTok⟩,
+              outs := [okResp k "Allocate" tid { lt := some (g / sec), relay := some (relayOf c f reqPort p),
+                                                  mapped := some k.src, token := newTok }],
+              resv := newTok.map (fun tk => ⟨k.lid, tk, (relayOf c f reqPort p).port, s.now + c.resvT⟩) }
+  | r => { outs := authFail k "Allocate" tid r }
 
 /-- lookup by 5-tuple *and* user (`GetAllocationForUserID`) -/
 def ownAlloc (s : State) (k : Key) (user : String) : Option Alloc :=
@@ -366,58 +380,64 @@ def ownAlloc (s : State) (k : Key) (user : String) : Option Alloc :=
   | some a => if a.user == user then some a else none
   | none => none
 
+/-- REQUESTED-ADDRESS-FAMILY on Refresh must equal the allocation's -/
+def refreshFamErr (fam : Attr Nat) (afam : Nat) : Option Nat :=
+  match fam with
+  | .absent => none
+  | .bad => some 400
+  | .val f => if (f == 1 || f == 2) && f == afam then none else some 443
+
 def hRefresh (c : Cfg) (s : State) (k : Key) (tid : Nat) (cr : Cred) (lt : Attr Nat) (fam : Attr Nat) : HRes :=
-  let M := "Refresh"
   match authenticate c cr with
   | .ok user =>
     match ownAlloc s k user with
     | none => {}
     | some a =>
-      let famErr : Option Nat :=
-        match fam with
-        | .absent => none
-        | .bad => some 400
-        | .val f => if (f == 1 || f == 2) && f == a.fam then none else some 443
-      match famErr with
-      | some code => { outs := [errResp k M code tid] }
+      match refreshFamErr fam a.fam with
+      | some code => { outs := [errResp k "Refresh" code tid] }
       | none =>
-        let g := lifetimeOf c lt
-        { upd := if g == 0 then .del else .set { a with expiry := s.now + g },
-          outs := [okResp k M tid { lt := some (g / sec) }] }
-  | r => { outs := authFail k M tid r }
+        if lifetimeOf c lt == 0 then { upd := .del, outs := [okResp k "Refresh" tid { lt := some 0 }] }
+        else { upd := .set { a with expiry := s.now + lifetimeOf c lt },
+               outs := [okResp k "Refresh" tid { lt := some (lifetimeOf c lt / sec) }] }
+  | r => { outs := authFail k "Refresh" tid r }
 
 def hCreatePerm (c : Cfg) (s : State) (k : Key) (tid : Nat) (cr : Cred) (peers : List (Option Addr)) : HRes :=
-  let M := "CreatePermission"
   match authenticate c cr with
   | .ok user =>
     match ownAlloc s k user with
     | none => {}
     | some a =>
-      let r := permLoop c s.now k.lid peers a
-      match r.2 with
-      | some code => { upd := .set r.1, outs := [errResp k M code tid] }
+      match (permLoop c s.now k.lid peers a).2 with
+      | some code => { upd := .set (permLoop c s.now k.lid peers a).1, outs := [errResp k "CreatePermission" code tid] }
       | none =>
-        if peers.isEmpty then { outs := [errResp k M 400 tid] }
-        else { upd := .set r.1, outs := [okResp k M tid] }
-  | r => { outs := authFail k M tid r }
+        if peers.isEmpty then { outs := [errResp k "CreatePermission" 400 tid] }
+        else { upd := .set (permLoop c s.now k.lid peers a).1, outs := [okResp k "CreatePermission" tid] }
+  | r => { outs := authFail k "CreatePermission" tid r }
+
+/-- the checks of `handleChannelBindRequest` after the allocation lookup: an error code or (number, peer) -/
+def bindChecks (c : Cfg) (lid : Nat) (a : Alloc) (num : Attr Nat) (peer : Attr Addr) : Except Nat (Nat × Addr) :=
+  match num with
+  | .val n =>
+    if !chanValid n then .error 400
+    else match peer with
+      | .val p =>
+        if !famOK p.ip a.fam then .error 443
+        else if !granted c lid p.ip then .error 401
+        else if bindConflict a n p then .error 400
+        else .ok (n, p)
+      | _ => .error 400
+  | _ => .error 400
 
 def hChanBind (c : Cfg) (s : State) (k : Key) (tid : Nat) (cr : Cred) (num : Attr Nat) (peer : Attr Addr) : HRes :=
-  let M := "ChannelBind"
   match authenticate c cr with
   | .ok user =>
     match ownAlloc s k user with
     | none => {}
     | some a =>
-      match num, peer with
-      | .val n, .val p =>
-        if !chanValid n then { outs := [errResp k M 400 tid] }
-        else if !famOK p.ip a.fam then { outs := [errResp k M 443 tid] }
-        else if !granted c k.lid p.ip then { outs := [errResp k M 401 tid] }
-        else if bindConflict a n p then { outs := [errResp k M 400 tid] }
-        else { upd := .set (addChan s.now c n p a), outs := [okResp k M tid] }
-      | .val n, _ => if !chanValid n then { outs := [errResp k M 400 tid] } else { outs := [errResp k M 400 tid] }
-      | _, _ => { outs := [errResp k M 400 tid] }
-  | r => { outs := authFail k M tid r }
+      match bindChecks c k.lid a num peer with
+      | .error code => { outs := [errResp k "ChannelBind" code tid] }
+      | .ok (n, p) => { upd := .set (addChan s.now c n p a), outs := [okResp k "ChannelBind" tid] }
+  | r => { outs := authFail k "ChannelBind" tid r }
 
 def hSend (s : State) (k : Key) (data : Option Bytes) (peer : Attr Addr) : HRes :=
   match findAlloc s k with
@@ -439,25 +459,33 @@ def hChanData (s : State) (k : Key) (raw : Bytes) : HRes :=
       | none => {}
       | some ch => if a.tcp then {} else { outs := [.toPeer a.relay ch.peer d] }
 
+/-- the checks of `handleConnectRequest`/`CreateTCPConnection`: `none` = silently dropped, an error code,
+    or the peer to register -/
+def connectChecks (c : Cfg) (s : State) (lid : Nat) (a : Alloc) (peer : Attr Addr) (dialOK : Bool) (cid : Nat) :
+    Option (Except Nat Addr) :=
+  match peer with
+  | .val p =>
+    if !granted c lid p.ip then some (.error 403)
+    else if p.port == 0 then none
+    else if dupeConn a p then some (.error 446)
+    else if !dialOK then some (.error 447)
+    else if cidUsed s lid cid then none      -- id collision: connection closed again, no response
+    else some (.ok p)
+  | _ => some (.error 400)
+
 def hConnect (c : Cfg) (s : State) (k : Key) (tid : Nat) (cr : Cred) (peer : Attr Addr) (dialOK : Bool) (cid : Nat) : HRes :=
-  let M := "Connect"
   match authenticate c cr with
   | .ok user =>
     match ownAlloc s k user with
     | none => {}
     | some a =>
-      match peer with
-      | .val p =>
-        if !granted c k.lid p.ip then { outs := [errResp k M 403 tid] }
-        else if p.port == 0 then {}
-        else if dupeConn a p then { outs := [errResp k M 446 tid] }
-        else if !dialOK then { outs := [errResp k M 447 tid] }
-        else if cidUsed s k.lid cid then {}      -- id collision: connection closed again, no response
-        else
-          { upd := .set { a with conns := ⟨cid, p, false, none, s.now + c.bindT, []⟩ :: a.conns },
-            outs := [.dial a.relay p cid, okResp k M tid { cid := some cid }] }
-      | _ => { outs := [errResp k M 400 tid] }
-  | r => { outs := authFail k M tid r }
+      match connectChecks c s k.lid a peer dialOK cid with
+      | none => {}
+      | some (.error code) => { outs := [errResp k "Connect" code tid] }
+      | some (.ok p) =>
+        { upd := .set { a with conns := ⟨cid, p, false, none, s.now + c.bindT, []⟩ :: a.conns },
+          outs := [.dial a.relay p cid, okResp k "Connect" tid { cid := some cid }] }
+  | r => { outs := authFail k "Connect" tid r }
 
 /-- `GetTCPConnection(userID, id)`: the allocation of this manager that holds `cid` -/
 def connOwner (s : State) (lid : Nat) (cid : Nat) : Option Alloc :=
@@ -527,7 +555,7 @@ def replaceAlloc (s : State) (a : Alloc) : State :=
 
 /-! ### time -/
 
-def purgeAlloc (now : Time) (a : Alloc) : Alloc × List Out :=
+def purgeAlloc (now : Nat) (a : Alloc) : Alloc × List Out :=
   let dead := a.conns.filter (fun t => t.bound.isNone && t.deadline ≤ now)
   ({ a with perms := a.perms.filter (fun p => now < p.expiry),
             chans := a.chans.filter (fun ch => now < ch.expiry),
